@@ -169,6 +169,52 @@ prop("C12", "bbs",
      "must return Err (a panic is a violation: build has overflow checks).",
      BBS_BASE, (1500, 20000), (600, 3600), profile="checked")
 
+prop("C13", "cl",
+     "one case = (CL suite, n attributes, attribute-class mix, edit kind). Keys, bases and commitment keys come from the real "
+     "generators (fresh per run). Positive: sign / sign_multiattr -> verify / verify_multiattr; disclose_selectively for ALL 2^n "
+     "subsets; byte and JSON round trips; e has exactly le bits and gcd(e, phi(N)) = 1 (harness knows p, q); e prime is decided "
+     "offline by an independent Miller-Rabin (lib/cl_offline.py). Negative (oracle: verify = false): each attribute changed / "
+     "replaced; the secret-key-free derivation (e, s, v*a_i^k) for m_i + k*e with k in {1, 2, 1024, -1, -2} (also the shifted "
+     "vector with the original signature); m_i + 2^lm; negative attribute; swapped positions; dropped non-zero attribute; 18 "
+     "edits of (e, s, v); reversed / other bases; other key; b<->c. Attribute classes: 0, 1, 2^lm-1, hash-derived, random.",
+     CL_BASE, (2000, 8000), (900, 7200))
+
+prop("C18", "cl",
+     "one case = one generated key pair (with its bases and commitment keys) or one (random function, size class). The worker "
+     "records N, p, q, b, c, a_i, h, g_i as hex; lib/cl_offline.py (Python ints, own 40-round Miller-Rabin, Euler criterion, "
+     "Jacobi symbol) decides: N = p*q, p != q, p, q, (p-1)/2, (q-1)/2 prime, |p| = |q| = SECPARAM+1; b, c, a_i, h, g_i in (1, N), "
+     "coprime, QR mod p and mod q; h generates QR_N (h^p' != 1 != h^q'). For a commitment key with its own modulus only size, "
+     "range, gcd and Jacobi symbol +1 are checkable (factorisation is discarded by the API). In the worker: to_bytes/from_bytes "
+     "and serde round trips for pk, sk, key pair, commitment key, bases, signature; random_bits(n) for n in {1,2,8,64,255,256,257,"
+     "1024,1536}: exactly n bits, top bit set, no repeats for n>=64; rand_int(a,b) in [a,b] incl. a=b, negative a, both end points reachable.",
+     CL_BASE, (1500, 9000), (900, 7200), min_counters={"key_pairs_recorded": 3})
+
+
+def post_C13(drv, res, binary, tier, seed):
+    import cl_offline
+    n = 0
+    for rec in res.get("extra", {}).pop("e_values", []):
+        e = int(rec["e"], 16)
+        n += 1
+        if not cl_offline.is_probable_prime(e):
+            res["violations"].append({"signature": "C13:e-not-prime", "scenario": 0, "detail": rec})
+    res.setdefault("extra", {})["e_values_checked_prime_offline"] = n
+
+
+def post_C18(drv, res, binary, tier, seed):
+    import cl_offline
+    recs = res.get("extra", {}).pop("c18_records", [])
+    for rec in recs:
+        for sig, detail in cl_offline.check_key_record(rec):
+            detail = dict(detail, case=rec["case"], N=rec["N"][:48] + "..")
+            res["violations"].append({"signature": sig, "scenario": 0, "detail": detail})
+    res.setdefault("extra", {})["keys_checked_offline"] = len(recs)
+    res["extra"]["offline_checker"] = "lib/cl_offline.py (Python ints, Miller-Rabin 40 rounds, Euler criterion, Jacobi)"
+    if recs:
+        r0 = recs[0]
+        res.setdefault("samples", []).append({"key": {k: (v[:32] + ".." if isinstance(v, str) else v) for k, v in r0.items()
+                                                      if k in ("suite", "case", "N", "b", "c")}})
+
 
 def dead_C08(drv, pid, tier, seed, binary, err):
     """The worker died (abort / stack overflow / OOM kill): find the last call without a ret in the flushed
